@@ -80,7 +80,8 @@ def pairs_for(rng, b, ent, u, v, n):
     # (iv) symmetry-only specials
     if b == "f64":
         sp = ["0000000000000000", "8000000000000000", "7ff0000000000000", "fff0000000000000", "7fefffffffffffff",
-              "0000000000000001", "0010000000000000", "7e37e43c8800759c", "7fd0000000000000", "3ff0000000000000", "bff0000000000000"]
+              "0000000000000001", "0010000000000000", "7e37e43c8800759c", "7fd0000000000000", "3ff0000000000000", "bff0000000000000",
+              "7ff8000000000000", "fff8000000000001"]
         for _ in range(max(2, n // 2)):
             out.append((rng.choice(sp), rng.choice(sp), "special"))
     else:
@@ -138,10 +139,22 @@ def judge(part, case, resps, ctx):
         part.violation(sig, "C02 %s: %s %s a=%s[%s] b=%s[%s] (%s): %s" % (kind, b, ty, case["x"], uu["dbg"], case["y"], vu["dbg"], case["kind"], text),
                        {"module": "c02", "backend": b, "ty": ty, "case": case, "resps": resps})
 
-    if b == "f64" and (f64_is_nan(case["x"]) or f64_is_nan(case["y"])):
-        part.count("nan_skipped")
-        return
     ab, ba, nat = r["ab"], r["ba"], r["nat"]
+    if b == "f64" and (f64_is_nan(case["x"]) or f64_is_nan(case["y"])):
+        # the statement speaks about NaN only through "reduce to the amount type's own comparison when the units are equal"
+        if u != v:
+            part.count("nan_cross_unit_not_judged")
+            return
+        part.count("nan_same_unit")
+        unordered = {"eq": False, "ne": True, "lt": False, "le": False, "gt": False, "ge": False, "pc": None}
+        for blk, nm, want in ((ab, "(a,b)", nat), (ba, "(b,a)", unordered)):
+            for k in ("eq", "ne", "lt", "le", "gt", "ge", "pc"):
+                if isinstance(blk[k], dict):
+                    viol("panic", "%s.%s panicked: %s" % (nm, k, blk[k].get("panic")))
+                elif blk[k] != want[k]:
+                    viol("same_unit", "%s: %s is %s with a NaN amount, the amount type's own comparison gives %s" % (nm, k, blk[k], want[k]))
+        part.cell(b, ty, uu["dbg"], vu["dbg"], "nan")
+        return
     for blk, nm in ((ab, "ab"), (ba, "ba")):
         for k, val in blk.items():
             if isinstance(val, dict) and "panic" in val:
